@@ -417,8 +417,9 @@ class PfWorld:
         self.ids = ids
 
     def img_spec(self, p):
-        return {'lines': [{'blocks': ln.get('blocks', ln.get('frames', 4)), 'seed': ln['seed'], 'amb': ln.get('amb', 0.3),
-                           'id': ln.get('id', 'l%03d' % j)} for j, ln in enumerate(p['lines'])],
+        return {'lines': [dict({'blocks': ln.get('blocks', ln.get('frames', 4)), 'seed': ln['seed'], 'amb': ln.get('amb', 0.3),
+                                'id': ln.get('id', 'l%03d' % j)}, **({'hsplit': ln['hsplit']} if ln.get('hsplit') else {}))
+                          for j, ln in enumerate(p['lines'])],
                 'regions': p.get('regions', 1)}
 
     def logit_layout(self, p):
@@ -466,7 +467,8 @@ class PfWorld:
 
     def argv(self, out, procs=1, skip=True, ov=None):
         ov = ov or {}
-        a = ['parse_folder.py', '-c', ov.get('ini', self.ini), '--device', 'cpu']
+        in_cfg = [] if 'outputs' in ov else list(self.plan.get('paths_in_config') or [])
+        a = ['parse_folder.py', '-c', self.ini_for(out, in_cfg) if in_cfg else ov.get('ini', self.ini), '--device', 'cpu']
         if skip:
             a.append('-s')
         in_img, in_xml, in_logits = (ov.get('in_img', self.in_img), ov.get('in_xml', self.in_xml),
@@ -480,7 +482,7 @@ class PfWorld:
         flag = {'xml': '--output-xml-path', 'render': '--output-render-path', 'logits': '--output-logit-path',
                 'alto': '--output-alto-path', 'lines': '--output-line-path'}
         for kind in KINDS:
-            if kind in ov.get('outputs', self.plan['outputs']):
+            if kind in ov.get('outputs', self.plan['outputs']) and kind not in in_cfg:
                 a += [flag[kind], os.path.join(out, kind)]
         if self.plan.get('transcriptions_file') and 'outputs' not in ov:
             a += ['--output-transcriptions-file-path', os.path.join(out, 'transcriptions.txt')]
@@ -489,6 +491,22 @@ class PfWorld:
         if any(p.get('no_xml') for p in self.plan['pages']):
             a.append('--skipp-missing-xml')
         return a
+
+    def ini_for(self, out, kinds):
+        """A copy of the configuration whose [PARSE_FOLDER] section names some output folders
+        (instead of the command line): the other way users tell parse_folder where to write."""
+        import configparser
+        path = os.path.join(os.path.dirname(self.ini), 'config-%s.ini' % os.path.basename(out))
+        if not os.path.exists(path):
+            ini = configparser.ConfigParser()
+            ini.optionxform = str
+            ini.read(self.ini)
+            key = {'xml': 'OUTPUT_XML_PATH', 'render': 'OUTPUT_RENDER_PATH', 'logits': 'OUTPUT_LOGIT_PATH',
+                   'alto': 'OUTPUT_ALTO_PATH', 'lines': 'OUTPUT_LINE_PATH'}
+            ini['PARSE_FOLDER'] = {key[k]: os.path.join(out, k) for k in kinds if k in self.plan['outputs']}
+            with open(path, 'w') as f:
+                ini.write(f)
+        return path
 
     # -- one simulated process
     def simulate_process(self, out, spec, extra_argv=None, ov=None):
@@ -503,6 +521,22 @@ class PfWorld:
         _random.seed(spec.get('rng_seed', 0))
         numpy.random.seed(spec.get('rng_seed', 0) % (2 ** 31))
         so, se = io.StringIO(), io.StringIO()
+        restore_ocr = None
+        if spec.get('ocr_oom_at') is not None:
+            # transient allocation failure inside the OCR network call (what a full GPU does)
+            from pero_ocr.ocr_engine.pytorch_ocr_engine import PytorchEngineLineOCR
+            orig_run, calls, world = PytorchEngineLineOCR.run_ocr, [0], self
+
+            def faulty_run_ocr(engine, batch_data):
+                n = calls[0]
+                calls[0] += 1
+                if n == spec['ocr_oom_at']:
+                    world.res.fault('ocr_out_of_memory')
+                    world.log.add(world.actor(), 'FAULT-ocr-oom', n)
+                    raise RuntimeError('CUDA out of memory. Tried to allocate (injected by the simulator)')
+                return orig_run(engine, batch_data)
+            PytorchEngineLineOCR.run_ocr = faulty_run_ocr
+            restore_ocr = (PytorchEngineLineOCR, orig_run)
         try:
             with contextlib.redirect_stdout(so), contextlib.redirect_stderr(se):
                 pf.main()
@@ -518,6 +552,8 @@ class PfWorld:
             p.exc_text = '%s: %s' % (type(e).__name__, e)
         finally:
             self.proc = None
+            if restore_ocr is not None:
+                restore_ocr[0].run_ocr = restore_ocr[1]
         p.stdout = so.getvalue()
         p.stderr = se.getvalue()
         if p.crash_at is not None and not p.killed:
